@@ -56,7 +56,7 @@ for _f, _n in (("B1", 25), ("B1d", 15), ("B2", 20), ("B3", 5)):
 for _f, _n in (("Q1", 20), ("Q2", 12), ("Q3", 4), ("Q4", 2), ("Q5", 1), ("C1", 15), ("C2", 5)):
     reg(_f, getattr(cue, "rule_" + _f), _n)
 
-for _f, _n in (("I1", 10), ("I2", 6), ("I3", 3), ("I4", 5), ("I5", 6), ("I6", 60), ("I7", 1), ("I8", 1), ("I9", 1), ("I10", 1), ("I11", 4), ("I12", 6), ("I13", 1), ("I14", 1), ("O1", 6), ("R1", 1)):
+for _f, _n in (("I1", 10), ("I2", 6), ("I3", 3), ("I4", 5), ("I5", 6), ("I6", 60), ("I7", 1), ("I8", 1), ("I9", 1), ("I10", 1), ("I11", 4), ("I12", 6), ("I13", 1), ("I14", 1), ("I15", 1), ("O1", 6), ("R1", 1)):
     reg(_f, getattr(isolation, "rule_" + _f), _n)
 
 for _f, _n in (("F1", 3), ("F2", 3), ("F3", 3), ("F4", 2), ("F5", 10), ("F6", 15)):
@@ -110,27 +110,30 @@ PROPS = {
               "fmt,[smpl],data; fmt values; destination encoding; output opened with builtin open(path,'wb') (L7); every data block trimmed to whole frames of that stream (P5); the frame size used for that trim is the one of the "
               "encoding the stream is constructed with (L8c: CDDA tracks are 2 x 2 bytes) and interleaving pads all channels to one length before emitting frames (P6)." + NOT +
               "that construct's Prefixed computes sizes correctly; smpl field value ranges; samples whose export raises."),
-    "C05": _p(["P1", "P8", "P2", "P3", "P6", "P5", "P7", "N3", "N7", "R1", "N5", "S9", "I1", "B1d", "L6e"],
+    "C05": _p(["P1", "P8", "P2", "P3", "P6", "P5", "P7", "N3", "N7", "R1", "N5", "S9", "I1", "B1d", "L6e", "O1"],
               "Decides the pairing clauses: marks and index keyed by export name only, every iteration path emits exactly one sample or skips a consumed one, partner marked iff "
               "combined (P1); by case analysis over the regex group (L|R) the first combine_stereo argument is always the L sample, partner name = stem+separator+other suffix, "
               "merged name = stem (P2); left streams then right streams, channel count = number of streams (P3); frame-major interleave / de-interleave idioms and end-padding (P6); "
               "end-of-data only on an empty trimmed block (P5); per-level hand-over exactly once (P7); names forwarded to the generalized sample (N3, N7); an unreadable tail of either member of a "
-              "pair ends that sample's data instead of aborting the export of the remaining samples (S9). An unreadable sibling entry adds nothing and displaces nothing in the volume list (I1)."
+              "pair ends that sample's data instead of aborting the export of the remaining samples (S9). An unreadable sibling entry adds nothing and displaces nothing in the volume list (I1). "
+              "For Roland directories the samples handed to the pairing routine are every sample of every partial, each once, and no sample ends the collection early (O1): "
+              "without that the channels of the written files cannot add up to the number of samples."
               "" + NOT +
               "which name multisets collide after renaming; unequal-length pairs."),
-    "C06": _p(["N1", "N2", "N3", "N4", "N5", "N7", "N9", "P1", "P8", "T1", "I14", "P9"],
+    "C06": _p(["N1", "N2", "N3", "N4", "N5", "N7", "N9", "P1", "P8", "T1", "I14", "P9", "P3"],
               "Decides confinement and character clauses: every directory class runs the naming routines on the children it hands out (N1) and receives them from its parent (N2); "
               "abstract string domain over the regex ASTs proves export names non-empty, alphabet within {word, space, - . #} (+ parentheses from counters), first character a word "
               "character, no trailing blank, directories not ending in '.' (N4); paths are built from export names only, joined under the destination, single write site (N5); "
-              "each element gets exactly one name recomputed from the raw name (N7); pairing marks keyed by export names (P1); counter loop bounded (T1)." + NOT +
+              "each element gets exactly one name recomputed from the raw name (N7); pairing marks keyed by export names (P1); counter loop bounded (T1). A merged stereo sample keeps every field of its left member, among them the parent and path that place its file inside its directory (P3 copy-left)." + NOT +
               "UNIQUENESS of paths within a run (depends on the whole sibling multiset; unclaimed clause)."),
-    "C07": _p(["S1", "S2", "S3", "S4p", "T1", "D1", "D2", "D3", "D4", "L1r", "I6"],
+    "C07": _p(["S1", "S2", "S3", "S4p", "T1", "D1", "D2", "D3", "D4", "L1r", "I6", "S6"],
               "Decides chain-resolution clauses: get_path appends the cursor before advancing to table[cursor].next, leaves exactly at .end, range test `>= len(table)` dominates the "
               "access, bounded counter advances on every back-edge path (S1, T1-COUNTER); out-of-range link stores raise InvalidFatDefinition (S2); concatenation addressing (S3); both "
               "decoders terminate on every table by the VISITED-WALK variant (T1), install links on every exit that is not justified by a malformed-table atom (D1) and only at END words "
               "/ directory-run ends (D3), with the documented constants (D2); the Roland cluster stream the chains are read from has the recorded offset / size "
               "terms (L1r); a read spanning several sectors of the list takes them in list order, each exactly once (S4p); the table a file is "
-              "resolved in is the one of its own partition - shared construct objects keep no table from an earlier parse (I6)." + NOT + "the exhaustive table x start enumeration; the AKAI reserved-run rule beyond D1/D3. Known finding G7."),
+              "resolved in is the one of its own partition - shared construct objects keep no table from an earlier parse (I6); every piece of a sector is read right after an absolute seek of the shared parent stream to "
+              "that sector's address, so that two files read in turn over the same partition stream each get their own sectors (S6)." + NOT + "the exhaustive table x start enumeration; the AKAI reserved-run rule beyond D1/D3. Known finding G7."),
     "C08": _p(["S5", "S7", "S3", "S4", "S6", "L2", "D4", "S10"],
               "Obligations on the 2 base methods and 9 override methods implementing every view kind: read amount = min(end-position, size) (0 if negative), position advances by exactly "
               "that amount, seek = clamp(base(whence)+offset, 0, end), no subclass overrides read/seek/tell/readall (S5); window and reversed translations incl. alignment errors and the "
@@ -180,13 +183,15 @@ PROPS = {
               "loop on the first unparsable header (T1-STREAM-PARSE exits); length prefixes wrap the streamed data (L1w); unreadable files are skipped without stopping the remaining ones "
               "(I1); whole-frame blocks (P5); the last CDDA track runs to the end of the file as it is (L8c). The AKAI file table and the volume body are read through the sector stream inside the handlers that turn a failed read into a skipped entry (I10)."
               "" + NOT + "prefix equality; which files are reported for which cut."),
-    "C16": _p(["I2", "I3", "R1", "N2", "N7", "S6", "S8", "N5", "N4", "L8r", "I6", "I7", "I8", "I9", "I12", "I14"],
+    "C16": _p(["I2", "I3", "R1", "N2", "N7", "S6", "S8", "N5", "N4", "L8r", "I6", "I7", "I8", "I9", "I12", "I14", "I15"],
               "Decides: accumulating / position-dependent realisers run once under a flag they always set (I2); no write-capable call outside the export path, inputs opened read-only "
               "(I3, N5); data streams are rewound before every export (R1); both actions install both naming routines before traversing, so what an operation sees does not depend on which "
               "ran first (N2); names recomputed from raw names (N7); no read depends on where an earlier operation left the shared cursor (S6, S8); name sanitising is a function of (raw name, "
               "file/directory flag) only (N4); Roland sample realisation derives its window from the stored stream without replacing it (L8r); construct singletons are not written "
               "to after construction (I6); nothing stored on a (memoised) element is a one-shot iterator that the first traversal would use up (I7); "
-              "users of memoised child / file lists never change them in place (I8). Lists handed to exported samples and returned by chain walks are fresh per call and never changed in place by another method (I12)."
+              "users of memoised child / file lists never change them in place (I8). Lists handed to exported samples and returned by chain walks are fresh per call and never changed in place by another method (I12). "
+              "No function of the package changes, returns or stores an object that is the default value of one of its parameters (I15): such an object is shared by all calls and would "
+              "carry widths / names / entries from an earlier listing into a later answer."
               "" + NOT +
               "equality across operation histories; effects of context mutation in wrap_child_realization."),
     "C17": _p(["Q1", "Q2", "Q3", "Q4", "T1", "Q5"],
@@ -206,10 +211,12 @@ PROPS = {
               "from and saved back to the history arrays after the sample loop (F5); presets in common.py only bind constants and inherit the streaming methods (F6)." + NOT +
               "equality of outputs over splits; output length; numerical behaviour.",
               ["the shipped .so files correspond to the .pyx sources (Cython is absent; they cannot be rebuilt here)"]),
-    "C20": _p(["L1i", "L1ri", "L2", "L6", "T4", "L8c", "X1", "S4p", "B3", "B1d"],
+    "C20": _p(["L1i", "L1ri", "L2", "L6", "T4", "L8c", "X1", "S4p", "B3", "B1d", "B2"],
               "Decides where each displayed value is read from and which key it lands in: evaluated layouts of AKAI sample header / loop table / program header / keygroup (symbolic in the "
               "zone count) / velocity zone and Roland sample parameter record incl. mapping tables, enum tables and Computed/If/Seek expressions vs the reviewed reference (L1i, L1ri, L2); "
               "dataclass <- struct field flow, positional constructor mapping, 0 -> 44100 default, active-loop selection over all 8 entries, itemize exclusions (L6); keygroup chain bounded "
               "by a 1-byte count (T4); CDDA track facts (L8c); padded tables (velocity zones) drop exactly the slots their predicate rejects, "
-              "at any position (L6); header and keygroup bytes of a file spread over several sectors are read in chain order (S4p)." + NOT + "rendering (80-column truncation, 300-line cap); float formatting."),
+              "at any position (L6); header and keygroup bytes of a file spread over several sectors are read in chain order (S4p); the key numbers of samples, programs and keygroups are "
+              "printed through the semitone table of MidiNote, which pairs each of the 12 semitones with its letter and sharp flag and is the inverse of the table used for parsing (B2); "
+              "a keygroup is built with the zones that were read also when there are none (L6 keygroup-zones)." + NOT + "rendering (80-column truncation, 300-line cap); float formatting."),
 }
